@@ -157,6 +157,9 @@ def drain(sock):
     return n
 
 
+_RUNS = [0]
+
+
 def run(binary, cfg, seed, fault=None, argv=("-t",), timeout=90, strict=False, yaml_text=None):
     """fault = None | (j, 'close', i) | (j, 'garbage', i, variant): applied to the answer to the j-th uplink message
     (0-based): close = the AMF sends the first i downlink messages of its answer, then closes; garbage = the i-th
@@ -169,6 +172,13 @@ def run(binary, cfg, seed, fault=None, argv=("-t",), timeout=90, strict=False, y
     open(os.path.join(wd, "config.yaml"), "w").write(yaml_text if yaml_text is not None else yaml_of(cfg))
     a, b = socket.socketpair(socket.AF_UNIX, socket.SOCK_SEQPACKET)
     env = dict(os.environ, STGUTG_VERIF_FD=str(b.fileno()))
+    # ambient inputs: every second run of the emulator has the environment variables set that the current sources read beyond
+    # those of the pinned tree (none on the unchanged tree)
+    _RUNS[0] += 1
+    if C.ambient_env_vars() and _RUNS[0] % 2 == 0:
+        amb = {n: os.path.join(C.WORK, "ambient-" + n) for n in C.ambient_env_vars()}
+        env.update(amb)
+        cfg["ambient_env"] = amb          # shows in the reported input
     p = subprocess.Popen([binary, *argv], cwd=wd, env=env, pass_fds=[b.fileno()], stdout=subprocess.PIPE, stderr=subprocess.STDOUT)
     b.close()
     a.settimeout(20)
